@@ -105,7 +105,7 @@ CHECKS = {
  'C03': dict(
    text='Machine-checked proof (Coq): WHOLE DOCUMENTS - a 3.0 document of version line, column line (distinct names) and any number of rows of comma-separated cells is read by the model of the grid rule as exactly the grid it denotes, '
         'whatever spelling each cell uses, provided the scalar rule reads the cell\'s value from its text before a comma / line end / bracket (C03_whole_document; with grid and column metadata: C03_whole_document_with_metadata; version 2.0 with the reader\'s version gate: C03_whole_document_2_0; one or several grids per document through parser.parse: C03_documents; rows in any spelling the row rule reads - plain, with blanks around the commas and before the line end, with empty cells as nulls, ended by CR LF: C03_whole_document_any_rows, C03_row_spellings); that proviso is proved for every string and URI with every legal escape, every number spelling '
-        '(sign, digits, fraction, exponent e / e+ / e-, unit), every date and time, the letter scalars, plain references, lists, dicts and nested grids of such elements to any depth. The header line and the column line in other spellings - blanks before and after the colon of each metadata tag, blanks around the commas between columns, blanks before the line ends - are proved for whole grids (C03_header_spellings, C03_header_and_column_spellings); dicts with blanks inside the braces, after the colons and in runs between the tags (C03_dict_spellings); times with a fraction of one to six digits (C03_time_fraction); timestamps with T or t, Z or z or a numeric offset, with or without a zone name (C03_timestamp_spellings, C03_timestamp_case_irrelevant). Also: final newline optional for every document, empty input gives no grid, LF and CRLF line ends, z/Z, '
+        '(sign, digits, fraction, exponent e / e+ / e-, unit), every date and time, the letter scalars, plain references, lists, dicts and nested grids of such elements to any depth. The header line and the column line in other spellings - blanks before and after the colon of each metadata tag, blanks around the commas between columns, blanks before the line ends - are proved for whole grids (C03_header_spellings, C03_header_and_column_spellings), and all of it at once - header line, column line and every row in any of the spellings the row rule reads - in C03_document_any_spelling; dicts with blanks inside the braces, after the colons and in runs between the tags (C03_dict_spellings); times with a fraction of one to six digits (C03_time_fraction); timestamps with T or t, Z or z or a numeric offset, with or without a zone name (C03_timestamp_spellings, C03_timestamp_case_irrelevant). Also: final newline optional for every document, empty input gives no grid, LF and CRLF line ends, z/Z, '
         '_ digit separators, blanks around commas (per rule); further spellings as evaluated examples. Decided otherwise by the reader model vs hszinc.parse on documents of an independent grammar-directed ZINC writer (value x independently chosen spelling: blanks around commas, '
         'empty cells, _ separators, exponents, INF/-INF/NaN, every escape form, CRLF, trailing commas, T/t, Z/z, with / without zone name and final newline), str and bytes in several charsets, single flag.',
    note='Number spellings with _ separators and upper-case E (C03_number_spellings_general) and lists with inner blanks / a trailing comma (C03_list_spellings) are proved through the whole alternation. PARTIAL: CRLF after the version and column lines is proved per rule only; inside whole documents it rests on the tie + search; what a timestamp text denotes is the iso8601 / pytz oracle. The independent writer is harness code (harness/props/c03.py). Charset decoding is CPython\'s. Print Assumptions: closed under the global context.',
